@@ -1,0 +1,133 @@
+//go:build verif
+
+// Contracts for the deductive verifier in /verif (comment-only; compiled only with -tags verif).
+// Ghost state: the byte stream of an io.Reader (stream(source), pos(source)), see /verif/DESIGN.md §2.6.
+
+package detect
+
+//@ func Round15
+//@   requires len(data) >= 0
+//@   modifies nothing
+//@   ensures len(r0) == 15 && off(r0) == 0 && fresh(r0)
+//@   ensures forall i int :: {r0[i]} 0 <= i && i < 15 ==> r0[i] != nil && r0[i].Q == app(runnerOf(i), data).Q && r0[i].Pass == app(runnerOf(i), data).Pass && r0[i].P == app(runnerOf(i), data).P
+//@   loop 1
+//@     invariant len(results) == 15 && off(results) == 0 && fresh(results)
+//@     invariant forall i int :: {results[i]} 0 <= i && i < $i ==> results[i] != nil && results[i].Q == app(runnerOf(i), data).Q && results[i].Pass == app(runnerOf(i), data).Pass && results[i].P == app(runnerOf(i), data).P
+//@   assert in loop 1: method.Runner == runnerOf($i)
+
+//@ func Round12
+//@   requires len(data) >= 0
+//@   modifies nothing
+//@   ensures len(r0) == 12 && off(r0) == 0 && fresh(r0)
+//@   ensures forall i int :: {r0[i]} 0 <= i && i < 12 ==> r0[i] != nil && r0[i].Q == app(runnerOf(i), data).Q && r0[i].Pass == app(runnerOf(i), data).Pass && r0[i].P == app(runnerOf(i), data).P
+//@   loop 1
+//@     invariant len(results) == 12 && off(results) == 0 && fresh(results)
+//@     invariant forall i int :: {results[i]} 0 <= i && i < $i ==> results[i] != nil && results[i].Q == app(runnerOf(i), data).Q && results[i].Pass == app(runnerOf(i), data).Pass && results[i].P == app(runnerOf(i), data).P
+//@   assert in loop 1: method.Runner == runnerOf($i)
+
+//@ func createDistributions
+//@   requires s >= 0 && m >= 0
+//@   modifies nothing
+//@   ensures len(r0) == m && off(r0) == 0 && fresh(r0)
+//@   ensures forall i int :: {r0[i]} 0 <= i && i < m ==> len(r0[i]) == s && off(r0[i]) == 0 && fresh(r0[i]) && ref(r0[i]) != ref(r0)
+//@   ensures forall a int, c int :: {r0[a], r0[c]} 0 <= a && a < c && c < m ==> ref(r0[a]) != ref(r0[c])
+//@   loop 1
+//@     invariant 0 <= i && i <= m && len(res) == m && off(res) == 0 && fresh(res)
+//@     invariant forall t int :: {res[t]} 0 <= t && t < i ==> len(res[t]) == s && off(res[t]) == 0 && fresh(res[t]) && ref(res[t]) != ref(res)
+//@     invariant forall a int, c int :: {res[a], res[c]} 0 <= a && a < c && c < i ==> ref(res[a]) != ref(res[c])
+
+//@ func Threshold
+//@   requires s >= 1
+//@   modifies nothing
+//@   pure
+//@   ensures r0 == thr(s)
+
+//@ func ThresholdQ
+//@   requires len(qValues) >= 1
+//@   modifies nothing
+//@   pure
+//@   ensures r0 == igamcR(4.5, chi10(qValues, len(qValues), 10) / 2.0)
+//@   loop 1
+//@     invariant forall j int :: {dist[j]} 0 <= j && j < 10 ==> dist[j] == cntbin(qValues, j, $i)
+//@   loop 2
+//@     unroll
+//@   assert in loop 2: sqdev(real(dist[i]), sk) == (real(dist[i]) - sk) * (real(dist[i]) - sk) / sk
+
+//@ func FactoryDetect
+//@   requires source != nil && !readfailed(source)
+//@   modifies nothing
+//@   let B := 125000
+//@   let st := stream(source)
+//@   let p0 := pos(source)@pre
+//@   loop 1
+//@     invariant 0 <= i && i <= s && pos(source) == p0 + i*B && !readfailed(source)
+//@     invariant len(buf) == B && off(buf) == 0 && fresh(buf) && len(counters) == 15 && off(counters) == 0 && fresh(counters)
+//@     invariant len(distributions) == 15 && off(distributions) == 0 && fresh(distributions)
+//@     invariant forall a int :: {distributions[a]} 0 <= a && a < 15 ==> len(distributions[a]) == s && off(distributions[a]) == 0 && fresh(distributions[a]) && ref(distributions[a]) != ref(distributions)
+//@     invariant forall a int, c int :: {distributions[a], distributions[c]} 0 <= a && a < c && c < 15 ==> ref(distributions[a]) != ref(distributions[c])
+//@     invariant forall a int :: {counters[a]} 0 <= a && a < 15 ==> counters[a] == passcnt(a, st, p0, B, i)
+//@     invariant forall a int, k int :: {distributions[a][k]} 0 <= a && a < 15 && 0 <= k && k < i ==> distributions[a][k] == qval(a, st, p0 + k*B, B)
+//@   loop 2
+//@     invariant len(resArr) == 15 && off(resArr) == 0 && fresh(resArr) && ref(resArr) != ref(distributions)
+//@     invariant forall a int :: {resArr[a]} 0 <= a && a < 15 ==> resArr[a] != nil && resArr[a].Q == qval(a, st, p0 + i*B, B) && resArr[a].Pass == passes(a, st, p0 + i*B, B)
+//@     invariant forall a int :: {counters[a]} 0 <= a && a < 15 ==> counters[a] == passcnt(a, st, p0, B, i) + (a < $i && passes(a, st, p0 + i*B, B) ? 1 : 0)
+//@     invariant forall a int, k int :: {distributions[a][k]} 0 <= a && a < 15 && 0 <= k && k < i ==> distributions[a][k] == qval(a, st, p0 + k*B, B)
+//@     invariant forall a int :: {distributions[a][i]} 0 <= a && a < $i ==> distributions[a][i] == qval(a, st, p0 + i*B, B)
+//@   loop 3
+//@     invariant forall a int :: {counters[a]} 0 <= a && a < $i ==> counters[a] >= t
+//@   loop 4
+//@     invariant forall a int :: {distributions[a]} 0 <= a && a < i ==> ThresholdQ#0(distributions[a]) >= AlphaT
+
+//@ func PowerOnDetect
+//@   requires source != nil && !readfailed(source)
+//@   modifies nothing
+//@   let B := 125000
+//@   let st := stream(source)
+//@   let p0 := pos(source)@pre
+//@   loop 1
+//@     invariant 0 <= i && i <= s && pos(source) == p0 + i*B && !readfailed(source)
+//@     invariant len(buf) == B && off(buf) == 0 && fresh(buf) && len(counters) == 15 && off(counters) == 0 && fresh(counters)
+//@     invariant len(distributions) == 15 && off(distributions) == 0 && fresh(distributions)
+//@     invariant forall a int :: {distributions[a]} 0 <= a && a < 15 ==> len(distributions[a]) == s && off(distributions[a]) == 0 && fresh(distributions[a]) && ref(distributions[a]) != ref(distributions)
+//@     invariant forall a int, c int :: {distributions[a], distributions[c]} 0 <= a && a < c && c < 15 ==> ref(distributions[a]) != ref(distributions[c])
+//@     invariant forall a int :: {counters[a]} 0 <= a && a < 15 ==> counters[a] == passcnt(a, st, p0, B, i)
+//@     invariant forall a int, k int :: {distributions[a][k]} 0 <= a && a < 15 && 0 <= k && k < i ==> distributions[a][k] == qval(a, st, p0 + k*B, B)
+//@   loop 2
+//@     invariant len(resArr) == 15 && off(resArr) == 0 && fresh(resArr) && ref(resArr) != ref(distributions)
+//@     invariant forall a int :: {resArr[a]} 0 <= a && a < 15 ==> resArr[a] != nil && resArr[a].Q == qval(a, st, p0 + i*B, B) && resArr[a].Pass == passes(a, st, p0 + i*B, B)
+//@     invariant forall a int :: {counters[a]} 0 <= a && a < 15 ==> counters[a] == passcnt(a, st, p0, B, i) + (a < $i && passes(a, st, p0 + i*B, B) ? 1 : 0)
+//@     invariant forall a int, k int :: {distributions[a][k]} 0 <= a && a < 15 && 0 <= k && k < i ==> distributions[a][k] == qval(a, st, p0 + k*B, B)
+//@     invariant forall a int :: {distributions[a][i]} 0 <= a && a < $i ==> distributions[a][i] == qval(a, st, p0 + i*B, B)
+//@   loop 3
+//@     invariant forall a int :: {counters[a]} 0 <= a && a < $i ==> counters[a] >= t
+//@   loop 4
+//@     invariant forall a int :: {distributions[a]} 0 <= a && a < i ==> ThresholdQ#0(distributions[a]) >= AlphaT
+
+//@ func PeriodDetect
+//@   requires source != nil && !readfailed(source)
+//@   modifies nothing
+//@   let B := 2500
+//@   let st := stream(source)
+//@   let p0 := pos(source)@pre
+//@   loop 1
+//@     invariant 0 <= i && i <= s && pos(source) == p0 + i*B && !readfailed(source)
+//@     invariant len(buf) == B && off(buf) == 0 && fresh(buf) && len(counters) == 12 && off(counters) == 0 && fresh(counters)
+//@     invariant len(distributions) == 12 && off(distributions) == 0 && fresh(distributions)
+//@     invariant forall a int :: {distributions[a]} 0 <= a && a < 12 ==> len(distributions[a]) == s && off(distributions[a]) == 0 && fresh(distributions[a]) && ref(distributions[a]) != ref(distributions)
+//@     invariant forall a int, c int :: {distributions[a], distributions[c]} 0 <= a && a < c && c < 12 ==> ref(distributions[a]) != ref(distributions[c])
+//@     invariant forall a int :: {counters[a]} 0 <= a && a < 12 ==> counters[a] == passcnt(a, st, p0, B, i)
+//@     invariant forall a int, k int :: {distributions[a][k]} 0 <= a && a < 12 && 0 <= k && k < i ==> distributions[a][k] == qval(a, st, p0 + k*B, B)
+//@   loop 2
+//@     invariant len(resArr) == 12 && off(resArr) == 0 && fresh(resArr) && ref(resArr) != ref(distributions)
+//@     invariant forall a int :: {resArr[a]} 0 <= a && a < 12 ==> resArr[a] != nil && resArr[a].Q == qval(a, st, p0 + i*B, B) && resArr[a].Pass == passes(a, st, p0 + i*B, B)
+//@     invariant forall a int :: {counters[a]} 0 <= a && a < 12 ==> counters[a] == passcnt(a, st, p0, B, i) + (a < $i && passes(a, st, p0 + i*B, B) ? 1 : 0)
+//@     invariant forall a int, k int :: {distributions[a][k]} 0 <= a && a < 12 && 0 <= k && k < i ==> distributions[a][k] == qval(a, st, p0 + k*B, B)
+//@     invariant forall a int :: {distributions[a][i]} 0 <= a && a < $i ==> distributions[a][i] == qval(a, st, p0 + i*B, B)
+//@   loop 3
+//@     invariant forall a int :: {counters[a]} 0 <= a && a < $i ==> counters[a] >= t
+//@   loop 4
+//@     invariant forall a int :: {distributions[a]} 0 <= a && a < i ==> ThresholdQ#0(distributions[a]) >= AlphaT
+
+//@ func SingleDetect
+//@   requires source != nil && !readfailed(source) && numByte >= 0
+//@   modifies nothing
